@@ -2,6 +2,7 @@ package mon
 
 import (
 	"fmt"
+	"math/rand/v2"
 	"strings"
 
 	"github.com/nlnwa/whatwg-url/url"
@@ -59,13 +60,29 @@ func (m c13) Run(ctx *core.Ctx) {
 		for j := 1 + r.IntN(5); j > 0; j-- {
 			cs.Ops = append(cs.Ops, genOp(r, kinds))
 		}
+		cs.Ops = append(cs.Ops, c13Epilogue(r)...)
 		cs.Ops = append(cs.Ops, sOp("--"))
 		for j := 1 + r.IntN(5); j > 0; j-- {
 			cs.Ops = append(cs.Ops, genOp(r, kinds))
 		}
+		cs.Ops = append(cs.Ops, c13Epilogue(r)...)
 		ctx.Begin(cs)
 		m.Exec(ctx, cs)
 	}
+}
+
+// c13Epilogue: a fixed tail of in-place mutations that touches every component that can be
+// shared by reference (path object incl. the opaque-path space stripping, query and fragment
+// pointers, host and port pointers, the parameter pairs), so that aliasing does not depend on
+// the random history happening to hit the right field.
+func c13Epilogue(r *rand.Rand) []core.Op {
+	if r.IntN(3) == 0 {
+		return nil
+	}
+	ops := []core.Op{sOp("hash", ""), sOp("search", ""), sOp("sp.set", "a", "zz"), sOp("sp.append", "b", "1"), sOp("sp.iterate"), sOp("sp.sort"),
+		sOp("pathname", "/zz/y"), sOp("port", "8123"), sOp("hostname", "zz.example"), sOp("username", "zu"), sOp("password", "zp"), sOp("hash", "zf")}
+	r.Shuffle(len(ops), func(i, j int) { ops[i], ops[j] = ops[j], ops[i] })
+	return ops[:3+r.IntN(len(ops)-2)]
 }
 
 type fullSnap struct {
